@@ -643,6 +643,11 @@ fn exec_open_hold<K: SimKey>(sh: &Shared<K>, db: &std::path::Path, wl: &Workload
                 s.trace[ev_from..]
                     .iter()
                     .filter(|e| e.task == task && e.mutating && e.err == 0 && !(e.call == crate::sim::Call::OpenWrite && e.path == "db/LOCK"))
+                    // on a directory that does not exist yet the LOCK file cannot be opened before the
+                    // database directory and its two fixed sub-directories exist; creating them is not a
+                    // modification of a database file (the property's observable: no write / rename /
+                    // unlink other than opening LOCK)
+                    .filter(|e| !(e.call == crate::sim::Call::Mkdir && matches!(e.path.as_str(), "db" | "db/staging" | "db/cas")))
                     .map(|e| format!("{} {}", e.call.name(), e.path))
                     .collect()
             });
